@@ -28,8 +28,8 @@ TOLERANCES = {
 }
 ASSUMPTIONS = ["loop model of vf.oracles.gridmodel (numbering convention of C07)"]
 FLOORS = {
-    "quick": {"cell_to_face_integer_fields": 500, "reconstruction_object_reused": 500, "scalar_voxel_size": 100, "grid_rejudged_after_operators": 300, "divergence_matrix": 500, "face_to_cell_model": 1500, "cell_to_face_model": 3000, "tangential_constant": 300},
-    "thorough": {"cell_to_face_integer_fields": 5000, "reconstruction_object_reused": 5000, "scalar_voxel_size": 1000, "grid_rejudged_after_operators": 3000, "divergence_matrix": 5000, "face_to_cell_model": 15000, "cell_to_face_model": 30000, "tangential_constant": 3000},
+    "quick": {"cell_to_face_buffer_refilled": 500, "tangential_default_form_is_blockwise": 300, "cell_to_face_integer_fields": 500, "reconstruction_object_reused": 500, "scalar_voxel_size": 100, "grid_rejudged_after_operators": 300, "divergence_matrix": 500, "face_to_cell_model": 1500, "cell_to_face_model": 3000, "tangential_constant": 300},
+    "thorough": {"cell_to_face_buffer_refilled": 5000, "tangential_default_form_is_blockwise": 3000, "cell_to_face_integer_fields": 5000, "reconstruction_object_reused": 5000, "scalar_voxel_size": 1000, "grid_rejudged_after_operators": 3000, "divergence_matrix": 5000, "face_to_cell_model": 15000, "cell_to_face_model": 30000, "tangential_constant": 3000},
 }
 
 
@@ -171,6 +171,17 @@ def run_shard(spec, R):
             if ok:
                 R.check(close(fq, M.cell_to_face([M.flat(sg)] * dim, "arithmetic"), float(np.max(np.abs(sg)))), "cell_to_face_model", {**case, "kind": "signed"})
 
+            # a work buffer refilled in place between two calls on the same grid: each call averages what the buffer
+            # holds when it is made
+            buf = rng.random(shape) + 0.1
+            for mode in ("arithmetic", "harmonic"):
+                ok, _first = R.guarded("cell_to_face_average", lambda: darsia.cell_to_face_average(grid, buf, mode))
+                buf *= 1.0 + rng.random(shape)
+                buf[tuple(0 for _ in shape)] += 1.0
+                ok2, fq2 = R.guarded("cell_to_face_average", lambda: darsia.cell_to_face_average(grid, buf, mode))
+                if ok and ok2:
+                    R.check(close(fq2, M.cell_to_face([M.flat(buf)] * dim, mode), 4.0), "cell_to_face_model", lambda: {**case, "kind": "buffer refilled in place between two calls", "mode": mode}, group="buffer_refilled")
+                    R.count("cell_to_face_buffer_refilled")
             # integer-valued cell fields (label-based weights): the means are the means of the numbers
             it_field = rng.integers(1, 6, size=shape)
             ikinds = {"int_scalar": (it_field, [M.flat(it_field.astype(float))] * dim)}
@@ -234,6 +245,12 @@ def run_shard(spec, R):
                                 if abs(tang[i][f] - a[dp]) > 8 * eps * abs(a[dp]):
                                     good = False
                 R.check(good, "tangential_constant", case)
+            # the default call form of the tangential reconstruction returns the components one block after the other
+            if dim > 1:
+                ok, pair = R.guarded("tangential_reconstruction", lambda: (darsia.FVTangentialFaceReconstruction(grid)(normal), darsia.FVTangentialFaceReconstruction(grid)(normal, False)))
+                if ok:
+                    R.check(np.shape(pair[0]) == ((dim - 1) * nf,) and np.array_equal(np.asarray(pair[0]), np.concatenate([np.asarray(t) for t in pair[1]])), "tangential_default_form_is_blockwise",
+                            lambda: {**case, "shape": list(np.shape(pair[0]))}, group=f"{dim}d")
             # quiescent point: every operator of this case has been built on (and applied with) the grid object; its
             # numbering and connectivity are judged again (operators must not write into the grid they were given)
             src_before = c07_source[0]
